@@ -37,6 +37,7 @@ namespace
     {
         using L = typename LibType<T, K>::type;
         static constexpr int NS = 2;
+        static constexpr bool refine_leak0 = (K == VEC);  // zero-sized blocks only come from vector(0) there
         static constexpr bool is_small = (K == SMALLU || K == SMALLD);
         c19::Slot<L> lib[2];
         std::optional<MVec<T>> mod[2];
@@ -150,6 +151,7 @@ namespace
                 mod[x].reset();
                 return "destroy";
             case 1:  // default construct
+                if (mod[x]) return nullptr;
                 if constexpr (K == ARR) lib[x].make(fill, [&](void* p) { new (p) L{}; });
                 else construct(x);
                 mod[x] = MVec<T>{};
@@ -163,6 +165,7 @@ namespace
                 else {
                     if (a < 0) return "skip";
                     if (K == SVEC && a > CAP) return "skip";
+                    if (mod[x]) return nullptr;
                     construct(x, (typename L::size_type)a);
                     mod[x] = MVec<T>{};
                     mod[x]->v.assign((size_t)a, T{});
@@ -172,6 +175,8 @@ namespace
             case 3: {  // variadic construct with a values
                 T v0 = val_of<T>(vid(k, 0)), v1 = val_of<T>(vid(k, 1)), v2 = val_of<T>(vid(k, 2)), v3 = val_of<T>(vid(k, 3)), v4 = val_of<T>(vid(k, 4));
                 int n = a;
+                if (K != ARR && (n < 2 || n > 5 || (n == 5 && K == SVEC))) return "skip";
+                if (mod[x]) return nullptr;
                 if constexpr (K == ARR) {
                     n = ARRN;
                     lib[x].make(fill, [&](void* p) { new (p) L{v0, v1, v2}; });
@@ -193,6 +198,7 @@ namespace
             }
             case 4:  // copy construct x from a
                 if (a == x || a < 0 || a >= NS || !mod[a]) return "skip";
+                if (mod[x]) return nullptr;
                 lib[x].make(fill, [&](void* p) { new (p) L(*lib[a]); });
                 mod[x] = *mod[a];
                 return "copy_ctor";
@@ -274,15 +280,22 @@ namespace
         }
     };
 
+    template <typename M>
+    void go(vh::Args& in, vh::Out& out, int en)
+    {
+        if (en == 1) c19::op_enum<M>(in, out);
+        else if (en == 2) c19::op_histq<M>(in, out);
+        else c19::op_hist<M>(in, out);
+    }
     template <int K>
-    void dispatch(vh::Args& in, vh::Out& out, bool en)
+    void dispatch(vh::Args& in, vh::Out& out, int en)
     {
         auto et = in.i();
-        if (et == 0) en ? c19::op_enum<SeqM<int, K>>(in, out) : c19::op_hist<SeqM<int, K>>(in, out);
-        else if (et == 1) en ? c19::op_enum<SeqM<double, K>>(in, out) : c19::op_hist<SeqM<double, K>>(in, out);
+        if (et == 0) go<SeqM<int, K>>(in, out, en);
+        else if (et == 1) go<SeqM<double, K>>(in, out, en);
         else out.tok("ERR etype");
     }
-    void dispatch_kind(vh::Args& in, vh::Out& out, bool en)
+    void dispatch_kind(vh::Args& in, vh::Out& out, int en)
     {
         auto kind = in.i();
         switch (kind) {
@@ -297,8 +310,9 @@ namespace
 } // namespace
 
 // hist <kind> <etype> <fill> <nsteps> (op x a)*
-VH_OP(hist) { dispatch_kind(in, out, false); }
+VH_OP(hist) { dispatch_kind(in, out, 0); }
+VH_OP(histq) { dispatch_kind(in, out, 2); }
 // enum <kind> <etype> <fill> <alphabet> <prefix> <depth>
-VH_OP(enum) { dispatch_kind(in, out, true); }
+VH_OP(enum) { dispatch_kind(in, out, 1); }
 
 VH_MAIN()
